@@ -46,8 +46,10 @@ def main():
     ap.add_argument("--dir", default="seeded",
                     help="seeded (property-breaking changes: exit 1 expected) or harmless "
                          "(behaviour-preserving rewrites: exit 0 expected)")
+    ap.add_argument("--base", default=BASE, help="scratch directory for the workers' worktrees")
     ap.add_argument("ids", nargs="*")
     args = ap.parse_args()
+    globals()["BASE"] = args.base
     sdir = os.path.join(VERIF, args.dir)
     harmless = args.dir != "seeded"
     ids = args.ids or sorted(d for d in os.listdir(sdir) if os.path.isdir(os.path.join(sdir, d)))
@@ -103,6 +105,10 @@ def main():
         sh(f"git -C /repo worktree remove --force {d}/repo")
         sh(f"git -C {VERIF} worktree remove --force {d}/verif")
     sh(f"rm -rf {BASE}; git -C /repo worktree prune; git -C {VERIF} worktree prune")
+    # merge with what another invocation may have written meanwhile: only the ids run here
+    current = json.load(open(rpath)) if os.path.exists(rpath) else {}
+    current.update({sid: results[sid] for sid in ids if sid in results})
+    results = current
     json.dump(results, open(rpath, "w"), indent=1, sort_keys=True)
     if harmless:
         with open(os.path.join(sdir, "RESULTS.md"), "w") as f:
